@@ -101,12 +101,12 @@ with wf_payload (p : sty) : bool :=
   | _ => false
   end.
 
-(* The domain of the round-trip claim: integers up to 64 bits; no Option around a payload that can
+(* The domain of the round-trip claim: integers of every width Rust has (8 to 128 bits); no Option around a payload that can
    itself be none (Option<Option<_>>, Option<()>, Option<UnitStruct>, ...); no embedded template
    values (those are the subject of the handle clause). *)
 Fixpoint roundtrippable (t : sty) : bool :=
   match t with
-  | TInt w | TUInt w => w <=? 64
+  | TInt w | TUInt w => (w <=? 64) || (w =? 128)
   | TValue => false
   | TOption t' => negb (nullable t') && roundtrippable t'
   | TNewtype t' | TSeq t' | PNew t' => roundtrippable t'
